@@ -9,11 +9,34 @@ import (
 )
 
 // vpPlainReader is an io.Reader that is NOT an io.ByteReader and delivers at
-// most `chunk` bytes per call (chunk <= 0: as many as fit).
+// most `chunk` bytes per call (chunk <= 0: as many as fit); with arb set every
+// call delivers an arbitrary count between 1 and what fits (every division of
+// the stream into short reads is a path).
 type vpPlainReader struct {
 	b     []byte
 	pos   int
 	chunk int
+	arb   bool
+	once  bool // one multi-byte call, any of them, is cut short anywhere
+}
+
+// vpSchedCut: fixed chunks of 1..3 bytes, or contiguous delivery with one short
+// read anywhere (for streams too long for vpSched's arbitrary schedules).
+func vpSchedCut(b []byte) *vpPlainReader {
+	k := vp.Choice(4)
+	if k == 3 {
+		return &vpPlainReader{b: b, once: true}
+	}
+	return &vpPlainReader{b: b, chunk: 1 + k}
+}
+
+// vpSched: fixed chunks of 1..3 bytes, or an arbitrary schedule.
+func vpSched(b []byte) *vpPlainReader {
+	k := vp.Choice(4)
+	if k == 3 {
+		return &vpPlainReader{b: b, arb: true}
+	}
+	return &vpPlainReader{b: b, chunk: 1 + k}
 }
 
 func (r *vpPlainReader) Read(p []byte) (int, error) {
@@ -29,6 +52,14 @@ func (r *vpPlainReader) Read(p []byte) (int, error) {
 	}
 	if r.chunk > 0 && n > r.chunk {
 		n = r.chunk
+	}
+	if r.once && n > 1 {
+		if k := vp.Choice(n); k > 0 {
+			n, r.once = k, false
+		}
+	}
+	if r.arb && n > 1 {
+		n = 1 + vp.Choice(n)
 	}
 	copy(p, r.b[r.pos:r.pos+n])
 	r.pos += n
